@@ -145,6 +145,7 @@ def run(ctx):
     ctx.floor("C15.R2", 8)
     ctx.floor("C15.R3", 6)
     derived_codecs_positional(ctx, "C15.R5")
+    custom_field_codecs(ctx, "C15.R5")
     ctx.floor("C15.R5", 6)
 
 
@@ -185,6 +186,34 @@ def derived_codecs_positional(ctx, rule, cfg="A"):
                     dflt.append("%s (%s)" % (g.name.split("::")[-1], t.get("at")))
         ctx.add(rule, "ppoprf::%s#deserialize-no-defaults" % adt.split("::")[-1], not dflt and bool(des),
                 "derived Deserialize of %s must fail on a missing element, not substitute a default: %s" % (adt, dflt), f.loc)
+
+
+def custom_field_codecs(ctx, rule, cfg="A"):
+    """who-may-be-called from derived (de)serializers: a `#[serde(serialize_with / deserialize_with = ..)]` field codec
+    replaces the derived, symmetric encoding of that field by hand-written code.  The reviewed table is: Evaluation.output
+    through point_serialize / point_deserialize (decided by C15.R2/R4).  Any other hand-written codec reached from derived
+    serde code - e.g. a map visitor that stops reading early - is outside what the round-trip rules cover."""
+    F = ctx.F(cfg)
+    reviewed = {}
+    for nm in ("ppoprf::ppoprf::point_serialize", "ppoprf::ppoprf::point_deserialize"):
+        try:
+            reviewed[ctx.fn(nm, cfg).name] = "Evaluation"
+        except Exception:
+            pass
+    found = set()
+    for f in F.fns.values():
+        if f.crate != "ppoprf" or not f.derived or "serde" not in f.name:
+            continue
+        for bi, t, k in F.callees(f):
+            g = F.fns.get((k or {}).get("fn") or "")
+            if g is not None and g.crate == "ppoprf" and not g.derived and "::tests::" not in g.name:
+                owner = f.name.split(" for ")[-1].split(">")[0].split("::")[-1] if " for " in f.name else f.name
+                found.add((owner, g.name))
+    bad = sorted((o, g) for o, g in found if not (g in reviewed and o.startswith(reviewed[g])))
+    ctx.add(rule, "ppoprf#custom-field-codecs", not bad and len(found) >= 2,
+            "hand-written field codecs reached from derived serde code must be the reviewed ones (Evaluation.output via "
+            "point_serialize / point_deserialize); others: %s" % bad, F.fns[bad[0][1]].loc if bad else ctx.fn("ppoprf::ppoprf::point_deserialize", cfg).loc,
+            sample={"found": sorted("%s -> %s" % (o, g.split("::")[-1]) for o, g in found)})
 
 
 def _engine_id(ctx, ev):
